@@ -147,7 +147,8 @@ func verifHarness_C06_channel(version int, inKeyed int, outKeyed int) {
 func verifHarness_C08_fix(version int, shape int, keyed int, strlen int) {
 	n := verifBareNode(V2, 1, 1)
 	var key *frame.V2Key
-	if keyed >= 1 {
+	// keyed 4 / 5: as 0 / 1 with the frame edited and fixed a second time
+	if keyed == 1 || keyed == 2 || keyed == 3 || keyed == 5 {
 		key, _ = verifKey()
 		n.OutKey = key
 	}
@@ -180,7 +181,7 @@ func verifHarness_C08_fix(version int, shape int, keyed int, strlen int) {
 			copy(f2.Signature[:], verifNondetBytes(6))
 			f2.Checksum = frame.VerifSpecChecksumV2(1, compat, seq, sys, comp, spec.ID(), frame.VerifTruncate(full), spec.CRCExtra())
 		}
-		if keyed == 1 {
+		if keyed == 1 || keyed == 5 {
 			f2.IncompatibilityFlag = 1
 			f2.SignatureLinkID = verifNondetU8()
 			f2.SignatureTimestamp = verifNondetU64()
@@ -191,6 +192,18 @@ func verifHarness_C08_fix(version int, shape int, keyed int, strlen int) {
 		fr = f2
 	}
 	verifAssert(n.FixFrame(fr) == nil, "C08/F/fix-ok")
+	if keyed >= 4 {
+		// a second stage edits the frame again (ids, sequence) after it was fixed once - the message is by now in
+		// its encoded form - and asks for another fix
+		seq, sys, comp = verifNondetU8(), verifNondetU8(), verifNondetU8()
+		switch f := fr.(type) {
+		case *frame.V1Frame:
+			f.SequenceNumber, f.SystemID, f.ComponentID = seq, sys, comp
+		case *frame.V2Frame:
+			f.SequenceNumber, f.SystemID, f.ComponentID = seq, sys, comp
+		}
+		verifAssert(n.FixFrame(fr) == nil, "C08/F/second-fix-ok")
+	}
 	rec := &frame.VerifRecWriter{}
 	w := &frame.Writer{ByteWriter: rec, DialectRW: n.dialectRW}
 	verifAssert(w.Initialize() == nil, "C08/F/writer-init")
